@@ -243,6 +243,18 @@ def generate(model: Model):
             for fn in (x for x in cdef.body if isinstance(x, ast.FunctionDef) and x.name == "_simplify_down"):
                 # rename the override away: the class inherits the logical rule again
                 yield "mutant", f"revert:physical-twin-inherits-logical-rule:{cdef.name}", "R11h", mod.rel, _splice(mod.source, fn, ast.unparse(fn).replace("def _simplify_down(", "def _simplify_down_disabled(", 1).replace("\n", "\n    "))
+        for fn in (x for x in tree.body if isinstance(x, ast.FunctionDef) and x.name == "_fused_placeholder"):
+            for r_ in (x for x in ast.walk(fn) if isinstance(x, ast.Return)):
+                yield "mutant", "revert:fused-string-placeholders", "R14c", mod.rel, _splice(mod.source, r_.value, "'_' + str(i)")
+        for cdef in (x for x in tree.body if isinstance(x, ast.ClassDef) and x.name == "Fused"):
+            for fn in (x for x in cdef.body if isinstance(x, ast.FunctionDef) and x.name == "_execute_task"):
+                for a_ in (x for x in ast.walk(fn) if isinstance(x, ast.Assign) and "literal" in ast.unparse(x.value)):
+                    yield "mutant", "revert:fused-inputs-executed", "R14c", mod.rel, _splice(mod.source, a_.value, "dep")
+            for fn in (x for x in cdef.body if isinstance(x, ast.FunctionDef) and x.name == "_task"):
+                for a_ in (x for x in ast.walk(fn) if isinstance(x, ast.Assign) and isinstance(x.value, ast.IfExp) and "_broadcast_dep" in ast.unparse(x.value.test)):
+                    yield "mutant", "revert:fused-nested-broadcast-index", "R14c", mod.rel, _splice(mod.source, a_.value, "index")
+                for d_ in (x for x in ast.walk(fn) if isinstance(x, ast.DictComp) and x.generators[0].ifs):
+                    yield "mutant", "revert:fused-nested-placeholders-merged", "R14c", mod.rel, _splice(mod.source, d_, "subgraph")
         for fn in (x for x in tree.body if isinstance(x, ast.FunctionDef) and x.name == "_length_determining_input"):
             for st in (x for x in fn.body if isinstance(x, ast.If) and "_length_root" in ast.unparse(x.test)):
                 yield "mutant", "revert:len-of-label-matched-inputs", "R06g", mod.rel, _splice(mod.source, st.test, "True")
